@@ -13,8 +13,9 @@ for dp, dn, fn in os.walk(os.path.join(root, "inference")):
             rel = os.path.relpath(p, root)
             tree = ast.parse(open(p).read())
             d = {qn: function_locals(node) for qn, node in iter_functions(tree)}
+            names = sorted(d)
             d = {k: v for k, v in d.items() if v}
-            if d:
-                out[rel] = d
+            d["__all__"] = names          # every function of the file (a function that is not listed is new)
+            out[rel] = d
 json.dump(out, open(os.path.join(os.path.dirname(os.path.abspath(__file__)), "..", "sa", "reference_locals.json"), "w"), indent=0, sort_keys=True)
-print(sum(len(v) for v in out.values()), "functions recorded")
+print(sum(len(v["__all__"]) for v in out.values()), "functions recorded")
